@@ -18,7 +18,8 @@ RULE = ("ASTs in the parser's image: a = parse(print(t)) for t from (i) every op
         "(dataclass equality and decoded terms) and render(parse(render(a))) == render(a). "
         "Non-trivial: contains a quote in a string, a singleton list, a right-nested "
         "same-precedence operator, a unary operator over a composite, a named parameter, or a "
-        "literal kind other than int/string/date; distinct by decoded term.")
+        "literal kind other than int/string/date; distinct by decoded term."
+        " Plus a coverage-guided campaign (atheris/libFuzzer mutating the byte buffer that Hypothesis decodes through the same strategy, the same oracle inside the target; quick 3000-4000 executions, thorough 4 x 100000-150000).")
 ASSUMPTIONS = ["the AST under test is obtained by parsing printed text, so it is in the parser's image",
                "C05 establishes that parse(print(t)) decodes to t"]
 
@@ -144,9 +145,20 @@ def exhaustive_terms():
                 yield gen_syntax.label(s, names)
 
 
+def fuzz_target():
+    """(strategy, fn) for the coverage-guided campaign (vp.fuzz_prop)."""
+    def fn(t):
+        r = check_term(t)
+        return (r[0], r[1], {"term": to_json(t)}) if r else None
+    return gen_syntax.exprs(4, gen_syntax.Cfg(full_unicode=True)), fn
+
+
 def plan(tier, seed, scale):
     K = 16
     tasks = [{"name": "exh-%d" % i, "kind": "exh", "i": i, "k": K} for i in range(K)]
+    for i in range(1 if tier == "quick" else 4):
+        tasks.append({"name": "covfuzz-%d" % i, "kind": "covfuzz", "shard": i,
+                      "runs": int((4000 if tier == "quick" else 150000) * scale)})
     total = int((16000 if tier == "quick" else 500000) * scale)
     for i in range(K):
         tasks.append({"name": "rand-%d" % i, "kind": "rand", "n": max(total // K, 10),
@@ -164,6 +176,10 @@ def run_task(task, seed, acc):
         if r:
             acc.fail(r[0], {"term": to_json(t)}, r[1])
 
+    if task["kind"] == "covfuzz":
+        from ..runner import run_covfuzz
+        run_covfuzz(__name__, task, seed, acc)
+        return
     if task["kind"] == "exh":
         for idx, t in enumerate(exhaustive_terms()):
             if idx % task["k"] == task["i"]:
